@@ -184,8 +184,8 @@ class Corr:
         else:
             # There are no checks here yet. There are so many possible scenarios, where this can go wrong.
             if normalize:
-                for t in range(self.T):
-                    vector_l[t], vector_r[t] = vector_l[t] / np.sqrt((vector_l[t] @ vector_l[t])), vector_r[t] / np.sqrt(vector_r[t] @ vector_r[t])
+                vector_l = [vl / np.sqrt(vl @ vl) for vl in vector_l]
+                vector_r = [vr / np.sqrt(vr @ vr) for vr in vector_r]
 
             newcontent = [None if (_check_for_none(self, self.content[t]) or vector_l[t] is None or vector_r[t] is None) else np.asarray([vector_l[t].T @ self.content[t] @ vector_r[t]]) for t in range(self.T)]
         return Corr(newcontent)
@@ -1069,7 +1069,7 @@ class Corr:
             return content_string
 
         if print_range[1]:
-            print_range[1] += 1
+            print_range = [print_range[0], print_range[1] + 1]
         content_string += 'x0/a\tCorr(x0/a)\n------------------\n'
         for i, sub_corr in enumerate(self.content[print_range[0]:print_range[1]]):
             if sub_corr is None:
